@@ -289,20 +289,23 @@ func evalBytesCheck(e *jsonata.Expr, input interface{}, out M, rawRes interface{
 }
 
 type request struct {
-	ID    int                      `json:"id"`
-	Fam   string                   `json:"fam"`
-	Src   string                   `json:"src"`
-	Ast   map[string]interface{}   `json:"ast"`
-	Inp   map[string]interface{}   `json:"inp"`
-	Binds []interface{}            `json:"binds"`
-	Flags map[string]interface{}   `json:"flags"`
-	Bytes []interface{}            `json:"bytes"`
-	Mode  string                   `json:"mode"`
+	ID    int                    `json:"id"`
+	Fam   string                 `json:"fam"`
+	Src   string                 `json:"src"`
+	Ast   map[string]interface{} `json:"ast"`
+	Inp   map[string]interface{} `json:"inp"`
+	Binds []interface{}          `json:"binds"`
+	Flags map[string]interface{} `json:"flags"`
+	Bytes []interface{}          `json:"bytes"`
+	Mode  string                 `json:"mode"`
 }
 
 func runCase(rq *request) M {
 	if rq.Mode == "date" {
 		return runDateCase(rq)
+	}
+	if rq.Mode == "num" {
+		return runNumCase(rq)
 	}
 	if rq.Mode == "compile" || rq.Mode == "denote" {
 		return runCompileCase(rq)
